@@ -1,0 +1,22 @@
+//go:build verif
+
+package utils
+
+// Machine-checked contracts for the govc verifier (/verif). This file is comment-only and is
+// compiled only with the "verif" build tag.
+
+//@ props C02 C15
+
+// The name a link is listed under: its Name field, or "" when the field is absent.
+//@ spec def linkKey(l github.com/ipld/go-codec-dagpb._PBLink) string = ite(l.Name.m == 2, l.Name.v.x, "")
+
+// Lookup returns the hash of the FIRST link whose key equals the name, and nil when no link has it.
+//@ func utils.Lookup
+//@ loop 0 invariant iterates-these-links: li.n == links && 0 <= li.idx && li.idx <= len(links.x)
+//@ loop 0 invariant no-earlier-match: forall j int :: 0 <= j && j < li.idx ==> linkKey(links.x[j]) != key
+//@ inst no-earlier-match: j: j
+//@ ensures not-found-means-no-link-has-the-name: result == nil ==> (forall j int :: 0 <= j && j < len(links.x) ==> linkKey(links.x[j]) != key)
+//@ inst not-found-means-no-link-has-the-name: j: j
+//@ at return assert found-is-first-match: result != nil ==> 1 <= li.idx && li.idx <= len(links.x) && linkKey(links.x[li.idx - 1]) == key && result.x == links.x[li.idx - 1].Hash.x && (forall j int :: 0 <= j && j < li.idx - 1 ==> linkKey(links.x[j]) != key)
+//@ inst found-is-first-match: j: j
+//@ assigns nothing
